@@ -82,6 +82,16 @@ fn nlines(t: &str) -> usize {
     super::c01::segments(t).len()
 }
 
+/// '@tr:2 gün' = the text '2 gün' evaluated with the language tag 'tr' (default 'en')
+fn split_lang(t: &str) -> (&str, &str) {
+    if let Some(rest) = t.strip_prefix('@') {
+        if let Some((lang, text)) = rest.split_once(':') {
+            return (lang, text);
+        }
+    }
+    ("en", t)
+}
+
 fn exec_purity(ctx: &mut Ctx, cfg: &Cfg, texts: &[String]) -> Verdict {
     let shown = if texts.len() > 8 { format!("walk of {} evaluations starting {:?} ...", texts.len(), &texts[..4]) } else { format!("{}{:?}", if *cfg == Cfg::default() { String::new() } else { format!("[{}] ", serde_json::to_string(cfg).unwrap()) }, texts) };
     let mut v = Verdict { input: shown, class: "history-compared", compared: true, expected: "every observation equals the same text on a calculator used once".into(), ..Default::default() };
@@ -89,7 +99,8 @@ fn exec_purity(ctx: &mut Ctx, cfg: &Cfg, texts: &[String]) -> Verdict {
     let calc = ctx.fresh(cfg);
     let mut trace = String::new();
     for (i, t) in texts.iter().enumerate() {
-        let run = obs::eval(&calc, "en", t);
+        let (lang, line) = split_lang(t);
+        let run = obs::eval(&calc, lang, line);
         v.evals += nlines(t) as u64;
         let o = format!("{:?}", run);
         trace.push_str(&format!("[{}] {} ;; ", i, run.brief()));
@@ -121,7 +132,8 @@ fn fresh_obs_cfg(ctx: &mut Ctx, cfg: &Cfg, text: &str) -> String {
         return v;
     }
     let calc = ctx.fresh(cfg);
-    let r = format!("{:?}", obs::eval(&calc, "en", text));
+    let (lang, line) = split_lang(text);
+    let r = format!("{:?}", obs::eval(&calc, lang, line));
     crate::runner::shared_put(key.clone(), r.clone());
     ctx.memo.insert(key, r.clone());
     r
@@ -150,6 +162,22 @@ impl Prop for C04 {
                 Some(Case::Purity(ts))
             },
         ));
+        {
+            let dl = tier.pick(3, 4);
+            f.push(Family::new(
+                "language-histories",
+                Mode::Full,
+                &format!("ONE calculator serving several languages: every sequence of 1..={} execute(lang, t) calls over [en '10 times 2', tr '10 times 2', en '6 divide 3', tr '6 divide 3', tr '5 kere 4', en '5 kere 4', en '2 days', tr '2 gün', en '2 gün', xx '10 times 2', en '12 march 2021', tr '12 mart 2021', en '12 mart 2021'] (words that are an operator, a unit or a month in one language only): every observation equals that of the same call on a calculator used once", dl),
+                move |ch| {
+                    let n = 1 + ch.choose(dl);
+                    let mut ts = Vec::new();
+                    for _ in 0..n {
+                        ts.push(ch.pick(&["10 times 2", "@tr:10 times 2", "6 divide 3", "@tr:6 divide 3", "@tr:5 kere 4", "5 kere 4", "2 days", "@tr:2 gün", "2 gün", "@xx:10 times 2", "12 march 2021", "@tr:12 mart 2021", "12 mart 2021"]).to_string());
+                    }
+                    Some(Case::Purity(ts))
+                },
+            ));
+        }
         {
             let dd = tier.pick(3, 4);
             f.push(Family::new(
